@@ -426,13 +426,13 @@ fn run_mode(ctx: &Ctx, mode: Mode) -> Report {
         } else {
             "same histories, biased to failing statements: multi-row INSERT whose k-th row violates PK / UNIQUE / NOT NULL / CHECK (against stored rows or earlier rows of \
              the same statement), multi-row UPDATE with a violating assignment (data-dependent CHECK, NOT NULL, duplicate key), engine-only failing statements \
-             (missing table/column, type error or division by zero in the k-th row). Oracle: for every Err-returning statement SELECT * and COUNT(*) before = after. \
+             (missing table/column, type error or division by zero in the k-th row). Oracle: for every Err-returning statement SELECT * and COUNT(*) before = after. Multi-table layer: the FK scenarios and random parent/child histories of the constraint engine (incl. a DELETE that hits a cascading and a refusing reference at once): every Err-returning DELETE / UPDATE must leave ALL tables unchanged. \
              non-trivial = distinct (failing statement, pre-state)"
         },
     );
     let model = Model::spawn(&ctx.model_bin, "sqldml");
     let mut run = Run { ctx, mode, rep: &mut rep, model, nepoch: 0 };
-    for line in ctx.corpus_cases(prop) { run.replay(&line); }
+    for line in ctx.corpus_cases(prop) { if line.starts_with("sys:") || line.starts_with("rand:") { continue; } run.replay(&line); }
     for (sc, script) in scripted() {
         let mut ep = run.new_epoch(&sc, &[]);
         for d in &script {
@@ -459,6 +459,7 @@ fn run_mode(ctx: &Ctx, mode: Mode) -> Report {
     let reqs = run.model.requests;
     let ne = run.nepoch;
     drop(run);
+    if mode == Mode::Atomic { super::sql_cons::run_atomic_layer(ctx, &mut rep); }
     rep.notes.push(format!("model requests: {reqs}; epochs: {ne}"));
     rep
 }
